@@ -97,6 +97,7 @@ theorem armLift_some (p : Nat) (hp : p = 4 ∨ p = 8) (c : Cfg) (t : Ty) (ih : L
     have := evalList_applyCasts (env.withFrames fr') m (casts.take (flatten t).length)
       (inputs.take (flatten t).length) (vs.take (flatten t).length)
       (by simp [hcl]; omega) h1 (by simp; omega)
+      (by rw [withFrames_p, hpe]; exact (castsFor_typed p hp _ _ casts vs hcasts hwf.1).take _)
     rw [this, withFrames_p, hpe, hz]
   rw [flatten_erase p hp t] at hwfc hden'
   have := ih (lvl + 1) _ env m _ r hpe hwfc hden' hr fr
